@@ -15,7 +15,8 @@ KEYSET = ["F1", "F2", "F3", "F4", "F5", "Tab", "Up", "Down", "Left", "Right", "E
           "F6", "F7", "F8", "F9", "F10", "F11", "F12", "Home", "End", "PageUp", "PageDown", "Insert", "Delete", "BackTab", "CtrlA", "CtrlL", "AltX", "ShiftUp", "CtrlRight", "Nul", "Utf8", "Wide"]
 SIZES_R = [1, 2, 3, 4, 5, 7, 10, 24, 50, 120]
 SIZES_C = [1, 2, 5, 10, 20, 49, 50, 80, 160, 250]
-FLAGS = ["--touchscreen", "--disable-lat-long", "--disable-callsign", "--disable-icao", "--disable-heading", "--disable-track", "--limit-parsing", "--retry-tcp", "--max-range=60", "--max-range=0"]
+FLAGS = ["--touchscreen", "--disable-lat-long", "--disable-callsign", "--disable-icao", "--disable-heading", "--disable-track", "--limit-parsing", "--retry-tcp", "--max-range=60", "--max-range=0",
+         "--filter-time=0", "--filter-time=18446744073709551615", "--gpsd"]  # appended: indices of saved cases stay valid
 AIRCRAFT = [0x4840D6, 0xABC001, 0x3C6586, 0x000001, 0xFFFFFE]
 # receiver positions given on the command line: None = the default site; the others are values the
 # f64 parser accepts or rejects - radar may refuse them (usage error) or run, but never crash
@@ -54,7 +55,8 @@ def run_case(case):
     rows, cols = SIZES_R[case["rows"] % len(SIZES_R)], SIZES_C[case["cols"] % len(SIZES_C)]
     connect = not case.get("no_server", False)
     rx = RXS[case.get("rx", 0) % len(RXS)] or RX
-    s = RadarSession("c17", rows=rows, cols=cols, lat=rx[0], lon=rx[1], opts=opts, connect=connect, filter_time=1 if case.get("expiry") else None)
+    ft = None if any(o.startswith("--filter-time") for o in opts) else (1 if case.get("expiry") else None)
+    s = RadarSession("c17", rows=rows, cols=cols, lat=rx[0], lon=rx[1], opts=opts, connect=connect, filter_time=ft)
     try:
         time.sleep(0.15)
         step_no = 0
